@@ -82,11 +82,13 @@ pub struct EHost {
     /// bit k set: the k-th (mod 64) import call interrupts
     pub interrupt_mask: u64,
     pub interrupts: u32,
+    /// deepest call depth (track_call nesting) at which an interrupt happened
+    pub max_interrupt_depth: u32,
 }
 
 impl EHost {
     pub fn new(energy: u64, interrupt_mask: u64) -> Self {
-        EHost { energy, ticked: 0, out_of_energy: false, calls_after_ooe: 0, depth: 0, max_depth_seen: 0, grow: vec![], log: 0, host_calls: 0, interrupt_mask, interrupts: 0 }
+        EHost { energy, ticked: 0, out_of_energy: false, calls_after_ooe: 0, depth: 0, max_depth_seen: 0, grow: vec![], log: 0, host_calls: 0, interrupt_mask, interrupts: 0, max_interrupt_depth: 0 }
     }
 }
 
@@ -117,6 +119,7 @@ impl Host<ArtifactNamedImport> for EHost {
             }
             if interrupt {
                 self.interrupts += 1;
+                self.max_interrupt_depth = self.max_interrupt_depth.max(self.depth);
                 return Ok(Some(Pending { push: Some(h0(x)) }));
             }
             stack.push_value(h0(x));
@@ -135,6 +138,7 @@ impl Host<ArtifactNamedImport> for EHost {
             }
             if interrupt {
                 self.interrupts += 1;
+                self.max_interrupt_depth = self.max_interrupt_depth.max(self.depth);
                 return Ok(Some(Pending { push: None }));
             }
             return Ok(None);
@@ -258,6 +262,7 @@ pub struct EngRun {
     pub host_calls: u64,
     pub calls_after_ooe: u64,
     pub interrupts: u32,
+    pub max_interrupt_depth: u32,
     #[cfg(concordium_base_verif)]
     pub hooks: concordium_wasm::verif_hooks::State,
 }
@@ -325,6 +330,7 @@ pub fn run_engine<R: RunnableCode>(art: &Artifact<ArtifactNamedImport, R>, name:
         host_calls: host.host_calls,
         calls_after_ooe: host.calls_after_ooe,
         interrupts: host.interrupts,
+        max_interrupt_depth: host.max_interrupt_depth,
         #[cfg(concordium_base_verif)]
         hooks,
     }
